@@ -368,7 +368,9 @@ class Run:
         exc = None
         got = None
         try:
-            got = self.real_apply(w.doc(t, h), op, w, t, h)
+            # (a whole assignment goes through the property setter of the job / project: the document
+            # object must not have been fetched by the harness first)
+            got = self.real_apply(None if k == "whole_assign" else w.doc(t, h), op, w, t, h)
         except Exception as e:  # noqa: BLE001
             exc = e
         self.expect(w, op, exc, want_exc)
